@@ -24,6 +24,7 @@ type Direct struct {
 	Virtual   bool // the client's pipe does not end at the server (a demultiplexer or a proxy is in between)
 	Proxy     *goat.Proxy
 	Link      *Pipe // proxy -- server link (ViaProxy)
+	Rewriting bool  // the proxy in between translates the name the client dials: on the client's pipe requests and responses carry different names by design
 	Disconnects []string
 }
 
@@ -73,6 +74,7 @@ func NewDirect(impl SvcServer, o DirectOpts) *Direct {
 			d.Link = NewPipe(d.Tap, PipeOpts{Name: "srvlink", Cap: o.Pipe.Cap, Serialize: o.Pipe.Serialize})
 			var ic goat.RpcIntercepter
 			if o.ViaProxy != "plain" {
+				d.Rewriting = true
 				ic = func(h *goatorepo.RequestHeader) error {
 					if h.Destination == "svc-by-name" {
 						h.Destination = "srv"
